@@ -692,8 +692,8 @@ impl PreferenceManager {
                 Some(old_value) => old_value != value,
                 None => bail!("{} is not a string-valued MathCAT preference: can't set it to '{}'", key, value),
             };
+            is_user_pref = false;       // also when the value is the one it has (it used to be filed with the user preferences then)
             if is_changed {
-                is_user_pref = false;
                 self.reset_files_from_preference_change(key, value)?;
             }
         } else if let Some(pref_value) = self.user_prefs.prefs.get(key) {
